@@ -47,6 +47,13 @@ func marshalTTY(v any, isTTY bool, defaultRoot, defaultElement string) ([]byte, 
 		}
 
 	case []string:
+		// mxj only writes well-formed lists for []any
+		a := make([]any, len(t))
+		for i := range t {
+			a[i] = t[i]
+		}
+		v = a
+
 		if len(t) >= 2 {
 			key := _elementMeta(t[0], lang.ELEMENT_META_ROOT)
 			if key == "" {
@@ -58,7 +65,7 @@ func marshalTTY(v any, isTTY bool, defaultRoot, defaultElement string) ([]byte, 
 				break
 			}
 			defaultElement = key
-			v = t[2:]
+			v = a[2:]
 		}
 
 	case []any:
